@@ -7,16 +7,15 @@ from fractions import Fraction
 
 from . import e2_formula as F
 from . import e7_rainir as R
+from . import e7_sym as Y
 from . import c05sem as SEM
 from .core import AnchorError, Unsupported
-from .e1_srcmodel import dotted, walk_no_nested, utext
+from .e1_srcmodel import dotted, utext
 from .e2_eval import is_unknown, need
 
 CFILE = "pyyeti/rainflow/c_rain.c"
 PYFILE = "pyyeti/rainflow/py_rain.py"
 CYC = "pyyeti/cyclecount.py"
-
-ONE = ("num", Fraction(1))
 
 
 def _v(n):
@@ -28,123 +27,60 @@ def _num(x):
 
 
 # ---------------------------------------------------------------------------
-def _c_region(ctx, name):
-    fdecl = R.clang_function(os.path.join(ctx.repo, CFILE), name)
-    low = R.CLower(fdecl)
-    ir = low.stmts(low.body()["inner"])
-    return _split(ir, f"C {name}"), low, fdecl
-
-
-def _split(ir, what):
-    """(inits, region): region = [outer for ..., step-6 loop]; inits = scalar sets before it"""
-    fors = [i for i, s in enumerate(ir) if s[0] == "for"]
-    if len(fors) != 2:
-        raise Unsupported(f"{what}: expected exactly two top-level loops (the count loop and step 6), found {len(fors)}")
-    inits = {}
-    for s in ir[: fors[0]]:
-        if s[0] == "set" and s[1][0] == "var" and s[2][0] == "num":
-            inits[s[1][1]] = s[2][1]
-    mid = ir[fors[0] + 1: fors[1]]
-    region = [ir[fors[0]]] + [s for s in mid if s[0] == "set" and s[1][0] == "var"] + [ir[fors[1]]]
-    junk = [s for s in mid if not (s[0] == "set" and s[1][0] == "var")]
-    if junk:
-        raise Unsupported(f"{what}: unexpected statement between the loops: {R.fmt(junk)[:2]}")
-    return inits, region
-
-
-def _py_region(ctx, name):
-    """allocations, returns and the function node (the counting code itself is lowered raw by _py_raw_region)"""
-    fn = ctx.src.func(PYFILE, name)
-    allocs = {}
-    rets = []
-    for st in fn.body:
-        if isinstance(st, ast.Assign) and isinstance(st.value, ast.Call) and dotted(st.value.func) in ("np.empty", "np.zeros") \
-                and isinstance(st.targets[0], ast.Name):
-            allocs[st.targets[0].id] = st.value
-        elif isinstance(st, ast.Return):
-            rets.append(st)
-    return allocs, rets, fn
-
-
-def _py_raw_region(ctx, name):
-    """the same region with the individual output stores and the row counter kept (for the unit-wise symbolic comparison)"""
-    fn = ctx.src.func(PYFILE, name)
-    keep = [s for s in fn.body if not (isinstance(s, ast.Expr) and isinstance(s.value, ast.Constant))
-            and not (isinstance(s, ast.Assign) and isinstance(s.value, ast.Call) and dotted(s.value.func) in ("np.empty", "np.zeros"))
-            and not isinstance(s, ast.Return)]
-    loops = [i for i, st in enumerate(keep) if isinstance(st, (ast.For, ast.While))]
-    if loops:
-        keep = keep[: loops[-1] + 1]      # statements after the step-6 loop only prepare the return value (see _py_slices)
-    ir = R.PyLower(fn, group=False).block(keep)
-    return _split(ir, f"py {name}")
-
-
 def astm_reference(with_offsets):
-    """ASTM E1049-85 section 5.4.4 (rainflow counting), steps 1-6, transcribed into the IR.
+    """ASTM E1049-85 section 5.4.4 (rainflow counting), steps 1-6, transcribed into the IR of e7_rainir.
        S = stack of reversals not yet counted (index j = top), X = range under consideration, Y = previous range.
          1  read next reversal (stop -> 6)
          2  fewer than three points -> 1
          3  X < Y -> 1
          4  Y does not contain the starting point: count Y as one cycle, discard its two points -> 2
          5  Y contains the starting point: count Y as one-half cycle, discard the first point -> 2
-         6  count each remaining range as one-half cycle"""
-    j, k, X, Y, A, B = _v("j"), _v("k"), _v("X"), _v("Y"), _v("A"), _v("B")
-    pts = lambda e: ("idx", "pts", e)          # noqa
-    ci = lambda e: ("idx", "ci", e)            # noqa
-    jm = lambda n: ("bin", "-", j, _num(n))    # noqa
-    half = lambda e: ("bin", "/", e, _num(2))  # noqa
-    step5 = [("emit", "rf", (half(Y), half(("bin", "+", pts(_num(0)), pts(_num(1)))), _num("0.5")))]
+         6  count each remaining range as one-half cycle
+       This is the one place a reference lives in the checker; it is the standard's procedure, not a copy of the code."""
+    j, k, n, L, X, Y_ = _v("j"), _v("k"), _v("n"), _v("L"), _v("X"), _v("Y")
+    S, P, rf, os_, peaks = _v("S"), _v("P"), _v("rf"), _v("os"), _v("peaks")
+    s = lambda e: ("idx", S, e)                     # noqa: E731  stack of values
+    p = lambda e: ("idx", P, e)                     # noqa: E731  their positions in the input
+    jm = lambda d: ("bin", "-", j, _num(d))         # noqa: E731
+    half = lambda e: ("bin", "/", e, _num(2))       # noqa: E731
+    add = lambda a, b: ("bin", "+", a, b)           # noqa: E731
+    inc = lambda v: ("set", v, add(v, _num(1)))     # noqa: E731
+
+    def count(rng, a, b, pa, pb, weight):
+        out = [("set", ("idx2", rf, n, _num(0)), half(rng)), ("set", ("idx2", rf, n, _num(1)), half(add(a, b))), ("set", ("idx2", rf, n, _num(2)), _num(weight))]
+        if with_offsets:
+            out += [("set", ("idx2", os_, n, _num(0)), pa), ("set", ("idx2", os_, n, _num(1)), pb)]
+        return out + [inc(n)]
+
+    def alloc(v, shape, dt=None):
+        return ("set", v, ("call", "np.empty", [shape] + ([("sym", dt)] if dt else []), {}))
+    rows = ("bin", "-", L, _num(1))
+    prog = [alloc(S, L), alloc(rf, ("tuple", [rows, _num(3)]))]
     if with_offsets:
-        step5.append(("emit", "os", (ci(_num(0)), ci(_num(1)))))
-    step5 += [("set", pts(_num(0)), pts(_num(1))), ("set", pts(_num(1)), pts(_num(2)))]
+        prog += [alloc(P, L, "int"), alloc(os_, ("tuple", [rows, _num(2)]), "int")]
+    step5 = count(Y_, s(_num(0)), s(_num(1)), p(_num(0)), p(_num(1)), "0.5") + [("set", s(_num(0)), s(_num(1))), ("set", s(_num(1)), s(_num(2)))]
     if with_offsets:
-        step5 += [("set", ci(_num(0)), ci(_num(1))), ("set", ci(_num(1)), ci(_num(2)))]
+        step5 += [("set", p(_num(0)), p(_num(1))), ("set", p(_num(1)), p(_num(2)))]
     step5 += [("set", j, _num(1))]
-    step4 = [("set", _v("full"), ("bin", "+", _v("full"), _num(1))),
-             ("emit", "rf", (half(Y), half(("bin", "+", pts(jm(2)), pts(jm(1)))), _num(1)))]
+    step4 = count(Y_, s(jm(2)), s(jm(1)), p(jm(2)), p(jm(1)), 1) + [("set", s(jm(2)), s(j))]
     if with_offsets:
-        step4.append(("emit", "os", (ci(jm(2)), ci(jm(1)))))
-    step4 += [("set", pts(jm(2)), pts(j))]
-    if with_offsets:
-        step4 += [("set", ci(jm(2)), ci(j))]
+        step4 += [("set", p(jm(2)), p(j))]
     step4 += [("set", j, jm(2))]
-    inner = [
-        ("set", Y, ("abs", ("bin", "-", pts(jm(2)), pts(jm(1))))),
-        ("set", X, ("abs", ("bin", "-", pts(jm(1)), pts(j)))),
-        ("if", ("cmp", "<", X, Y), [("break",)], []),
-        ("if", ("cmp", "==", j, _num(2)), step5, step4),
-    ]
-    outer = [("set", j, ("bin", "+", j, _num(1))), ("set", pts(j), ("idx", "peaks", k))]
+    inner = [("set", Y_, ("abs", ("bin", "-", s(jm(2)), s(jm(1))))),
+             ("set", X, ("abs", ("bin", "-", s(jm(1)), s(j)))),
+             ("if", ("cmp", "<", X, Y_), [("break",)], []),                         # step 3
+             ("if", ("cmp", "==", j, _num(2)), step5, step4)]                       # the starting point is S[0]: Y contains it iff j == 2
+    outer = [inc(j), ("set", s(j), ("idx", peaks, k))]                             # step 1
     if with_offsets:
-        outer.append(("set", ci(j), k))
-    outer.append(("while", ("cmp", ">", j, _num(1)), inner))
-    s6 = [("set", B, pts(("bin", "+", k, _num(1)))),
-          ("emit", "rf", (half(("abs", ("bin", "-", A, B))), half(("bin", "+", A, B)), _num("0.5")))]
-    if with_offsets:
-        s6.append(("emit", "os", (ci(k), ci(("bin", "+", k, _num(1))))))
-    s6.append(("set", A, B))
-    return [("for", "k", _num(0), _v("L"), outer), ("set", A, pts(_num(0))), ("for", "k", _num(0), j, s6)]
-
-
-class Sides:
-    pass
-
-
-def _load(ctx):
-    if hasattr(ctx, "_c05"):
-        return ctx._c05
-    S = Sides()
-    S.c = {}
-    S.py = {}
-    for nm in ("rainflow1", "rainflow2"):
-        (ini, reg), low, fdecl = _c_region(ctx, nm)
-        S.c[nm] = dict(inits=ini, region=reg, low=low, fdecl=fdecl)
-    for nm in ("_rainflow1", "_rainflow2"):
-        allocs, rets, fn = _py_region(ctx, nm)
-        S.py[nm] = dict(raw=_py_raw_region(ctx, nm), allocs=allocs, rets=rets, fn=fn)
-    ctx._c05 = S
-    ctx.src.mods.setdefault(CFILE, _CMod(ctx.repo, CFILE))
-    return S
+        outer.append(("set", p(j), k))
+    outer.append(("loop", ("cmp", ">", j, _num(1)), inner, []))                    # step 2
+    k1 = add(k, _num(1))
+    s6 = count(("abs", ("bin", "-", s(k), s(k1))), s(k), s(k1), p(k), p(k1), "0.5")
+    prog += [("set", j, _num(-1)), ("set", n, _num(0)), ("set", k, _num(0)), ("loop", ("cmp", "<", k, L), outer, [inc(k)]),
+             ("set", k, _num(0)), ("loop", ("cmp", "<", k, j), s6, [inc(k)])]
+    ret = [("upto", rf, n)] + ([("upto", os_, n)] if with_offsets else [])
+    prog.append(("return", ret[0] if len(ret) == 1 else ("tuple", ret)))
+    return prog
 
 
 class _CMod:
@@ -154,62 +90,513 @@ class _CMod:
         self.digest = digest(os.path.join(repo, rel))
 
 
-def _cwhere(line=None):
-    return f"{CFILE}" + (f":{line}" if line else "")
+def _load(ctx):
+    impl = SEM.implementations(ctx)
+    ctx.src.mods.setdefault(CFILE, _CMod(ctx.repo, CFILE))
+    return impl
 
 
 def r1_equivalence(ctx):
-    """C == Python, unit by unit and path by path (semantic: insensitive to temporaries, statement order, hoisting, local names)"""
-    SEM.r1_equivalence(ctx, _load(ctx))
+    """C == Python, cut point by cut point and path by path (semantic: insensitive to temporaries, statement order, loop spelling, helper
+    functions, local names and re-based counters)"""
+    _load(ctx)
+    SEM.r1_equivalence(ctx)
 
 
 def r2_erasure(ctx):
     """rainflow1 is rainflow2 with the offset bookkeeping erased, on both sides"""
-    SEM.r2_erasure(ctx, _load(ctx))
+    _load(ctx)
+    SEM.r2_erasure(ctx)
 
 
 def r3_astm(ctx):
     """each of the four counters equals the ASTM E1049-85 5.4.4 automaton transcribed in astm_reference()"""
-    SEM.r3_astm(ctx, _load(ctx), astm_reference)
+    _load(ctx)
+    SEM.r3_astm(ctx, astm_reference)
 
 
 def r5_lockstep(ctx):
-    SEM.r5_lockstep(ctx, _load(ctx))
+    _load(ctx)
+    SEM.r5_lockstep(ctx)
 
 
 def r6_value_flow(ctx):
-    SEM.r6_value_flow(ctx, _load(ctx))
+    _load(ctx)
+    SEM.r6_value_flow(ctx)
+
+
+# ---------------------------------------------------------------------------
+# R4: counter balance and buffer bounds by abstract interpretation (affine equalities + template inequalities)
+def _returned(ret):
+    """returned value -> [('view', array, stop Aff) | ('whole', array)] or None"""
+    if ret is None:
+        return None
+    vals = list(ret[2:]) if ret[0] == "obj" and ret[1] == "tuple" else [ret]
+    out = []
+    for v in vals:
+        if v[0] == "obj" and v[1] == "view":
+            out.append(("view", v[2], SEM._ixaff(v[3])))
+        elif v[0] == "ptr" and v[2] == Y.ZERO:
+            out.append(("whole", v[1]))
+        else:
+            return None
+    return out
+
+
+def r4_counter_balance(ctx):
+    """for every input of length L >= 2: every access to the stacks and to the input is within the allocated length, the stores into the output
+    tables fill whole rows consecutively from row 0 and stay below the allocated capacity, the table handed back holds exactly the rows
+    written (stated with the program's own exit expression, whatever counter it keeps), both tables have the same number of rows, and the
+    counts sum to (L-1)/2.  Abstract interpretation (Karr's affine equalities + lower bounds + template inequalities, invariants inferred per
+    program) of the transition system of each implementation."""
+    from .e8_karr import GraphAnalysis, V
+    impl = _load(ctx)
+    for (side, nm), a in impl.items():
+        ts = a["raw"]
+        ex = ts.ex
+        where = a["where"]
+        tag = f"{side} {nm}"
+        Ln = ex.params[1]
+        L = V(Ln)
+        need_ = {"pts", "rf"} | ({"cycle_index", "os"} if a["offsets"] else set())
+        if not need_ <= set(ts.allocs):
+            ctx.error(f"{tag}: no allocation found for {sorted(need_ - set(ts.allocs))}", where)
+            continue
+        arrays = {b: ts.allocs[b]["n"] for b in ("pts", "cycle_index") if b in ts.allocs}
+        arrays["peaks"] = L          # C05-R7 checks that both entry points pass L = the length of the 1-D peaks array
+        outs = {b: (ts.allocs[b]["rows"], ts.allocs[b]["cols"]) for b in ("rf", "os") if b in ts.allocs}
+        edges = SEM.counter_edges(a)
+        parent = {"H1": None, "H2": "H1", "H3": None, Y.EPI: None}
+        try:
+            an = GraphAnalysis(ts.nodes, edges, Y.START, parent, arrays, outs, ts.int_vars(), {}, count_col={"rf": 2}, lower={Ln: 2}).run()
+        except Unsupported as e:
+            ctx.error(f"{tag}: abstract interpretation gave up: {e}", where)
+            continue
+        seen = set()
+        for desc, ok, strepr in an.obl:
+            if (desc, ok) in seen:
+                continue
+            seen.add((desc, ok))
+            ctx.check(ok, f"{tag}: {desc}", where, None if ok else f"not derivable from the invariant {strepr}")
+        rows = {b: V(f"#rows:{b}") for b in outs}
+        nexit = 0
+        for i, e in enumerate(edges):
+            if e["dst"] not in (Y.END, Y.RAISE, Y.FAIL):
+                continue
+            for var, st, out in an.at.get(i, []):
+                if e["dst"] != Y.END:
+                    ctx.fail(f"{tag}: {e['label']}: the counter gives up on an input of length >= 2 ({e['dst']})", where, repr(st))
+                    continue
+                nexit += 1
+                rets = _returned(e["trans"]["ret"])
+                want = ["rf"] + (["os"] if a["offsets"] else [])
+                ok = rets is not None and [r[1] for r in rets] == want
+                ctx.check(ok, f"{tag}: {e['label']}: returns {' and '.join(want)}", where, None if ok else Y.show(e["trans"]["ret"]), key=f"C05-R4|{tag}|returns|{e['label']}")
+                if not ok:
+                    continue
+                for r in rets:
+                    if r[0] == "view":
+                        ok = out.entails_eq(rows[r[1]] - r[2])
+                        ctx.check(ok, f"{tag}: {e['label']}: the returned prefix {r[1]}[:{r[2]}] is exactly the rows written", where, None if ok else repr(out))
+                    else:
+                        ok = out.entails_eq(rows[r[1]] - outs[r[1]][0])
+                        ctx.check(ok, f"{tag}: {e['label']}: {r[1]} is returned whole and is full (rows written == {outs[r[1]][0]} allocated)", where,
+                                  None if ok else repr(out))
+                ok = out.entails_eq(V("#full") + rows["rf"] - (L - 1))
+                ctx.check(ok, f"{tag}: {e['label']}: 2 * sum(counts) = 2*full + half = L - 1 (every interval between successive points is counted once)", where,
+                          None if ok else repr(out))
+                if a["offsets"]:
+                    ok = out.entails_eq(rows["rf"] - rows["os"])
+                    ctx.check(ok, f"{tag}: {e['label']}: as many offset rows as value rows", where, None if ok else repr(out))
+        ctx.check(nexit >= 1, f"{tag}: the counter returns on {nexit} path(s)", where, nontrivial=False)
+
+
+# ---------------------------------------------------------------------------
+INT_DTYPES = ("np.int64", "np.intp", "int", "np.int_", "numpy.int64", "numpy.intp", "np.integer")
+FLOAT_DTYPES = (None, "np.float64", "float", "np.double", "numpy.float64", "np.float_")
+C_INTP = ("npy_intp", "Py_ssize_t", "long", "npy_int64", "ssize_t", "intptr_t", "npy_long", "long long", "int64_t")
+C_DOUBLE = ("double", "npy_double", "npy_float64")
+NPY_INTP = ("NPY_INTP", "NPY_LONG", "NPY_INT64", "NPY_LONGLONG")
+
+
+def r8_buffers(ctx):
+    """element types of the buffers; C: every calloc is freed exactly once on the normal exit and on the `fail` exit, nothing that is returned is
+    released, the input array is released exactly once"""
+    impl = _load(ctx)
+    for (side, nm), a in impl.items():
+        ts = a["raw"]
+        al = ts.allocs
+        tag = f"{side} {nm}"
+        where = a["where"]
+        if side == "py":
+            for arr in ("cycle_index", "os"):
+                if arr in al:
+                    ctx.check(al[arr]["dtype"] in INT_DTYPES, f"{tag}: {arr} holds integers ({al[arr]['dtype']})", where)
+            for arr in ("pts", "rf"):
+                ctx.check(al[arr]["dtype"] in FLOAT_DTYPES, f"{tag}: {arr} holds doubles ({al[arr]['dtype'] or 'default dtype'})", where)
+            continue
+        ctx.check(al["pts"]["dtype"] in C_DOUBLE, f"{tag}: the value stack is allocated with sizeof(double) ({al['pts']['dtype']})", where)
+        ctx.check(al["rf"]["dtype"] == "NPY_DOUBLE", f"{tag}: the cycle table is an NPY_DOUBLE array ({al['rf']['dtype']})", where)
+        if a["offsets"]:
+            ctx.check(al["cycle_index"]["dtype"] in C_INTP, f"{tag}: the position stack is allocated with sizeof(npy_intp) ({al['cycle_index']['dtype']})", where)
+            ctx.check(al["os"]["dtype"] in NPY_INTP, f"{tag}: the offsets table is an NPY_INTP array ({al['os']['dtype']})", where)
+        work = [b for b in ("pts", "cycle_index") if b in al]
+        nend = 0
+        for t in ts.trans:
+            if t["dst"] != Y.END:
+                continue
+            nend += 1
+            label = f"{t['src']}->END" + "".join(f" [{'' if tk else 'not '}{Y.show(x)}]" for x, tk in t["key"])
+            ev = t["events"]
+            for b in work:
+                n = sum(1 for e in ev if e[0] == "free" and e[1] == b)
+                at0 = all(e[2] == "0" for e in ev if e[0] == "free" and e[1] == b)
+                ctx.check(n == 1 and at0, f"{tag}: {label}: the {b} buffer is freed exactly once ({n})", where)
+            bad = [e for e in ev if e[0] == "free" and e[1] not in work]
+            ctx.check(not bad, f"{tag}: {label}: free() is applied only to calloc'ed buffers", where, None if not bad else repr(bad), nontrivial=False)
+            n = sum(1 for e in ev if e[0] == "decref" and e[1] == "peaks")
+            ctx.check(n == 1, f"{tag}: {label}: the input array is released exactly once ({n})", where)
+            ctx.check(not any(e[0] == "decref-null" for e in ev), f"{tag}: {label}: Py_DECREF is never applied to NULL", where, nontrivial=False)
+            rets = _returned(t["ret"]) or []
+            for r in rets:
+                n = sum(1 for e in ev if e[0] == "decref" and e[1] == r[1])
+                if r[0] == "whole":
+                    ctx.check(n == 0, f"{tag}: {label}: the returned array {r[1]} is not released ({n} DECREF)", where)
+                else:
+                    ctx.check(n <= 1, f"{tag}: {label}: the array behind the returned view of {r[1]} is released at most once ({n} DECREF)", where)
+        ctx.check(nend >= 1, f"{tag}: release rule bound to {nend} normal exits", where, nontrivial=False)
+        # the `fail` exit: every calloc'ed buffer is freed there
+        body = ts.ex.f.body
+        names = {orig for orig, role in ts.roles.items() if role in work}
+        gotos = {s[1] for s in R.walk_ir(body) if s[0] == "goto"}
+        for lab in sorted(gotos):
+            at = [i for i, s in enumerate(body) if s[0] == "label" and s[1] == lab]
+            if not at:
+                ctx.error(f"{tag}: label {lab} is not at the top level of the function", where)
+                continue
+            freed = [s[1][2][0][1] for s in body[at[0]:] if s[0] == "expr" and s[1][0] == "call" and s[1][1] == "free" and s[1][2] and s[1][2][0][0] == "var"]
+            ok = names <= set(freed) and len(freed) == len(set(freed))
+            ctx.check(ok, f"{tag}: the `{lab}` exit frees every calloc'ed buffer exactly once ({sorted(freed)})", where)
+
+
+# ---------------------------------------------------------------------------
+# R7: entry points and selection
+KERNELS = {"rainflow1": False, "rainflow2": True, "_rainflow1": False, "_rainflow2": True}
+
+
+def _flag_truth(key, is_flag):
+    """truth of the offsets flag on a path (None: the path does not test it)"""
+    for atom, taken in key:
+        if atom[0] == "truth" and is_flag(atom[1]):
+            return taken
+        if atom[0] == "ieq":
+            a = SEM._ixaff(atom[1])
+            if len(a.c) == 1 and a.k == 0 and is_flag(next(iter(a.c))):
+                return not taken
+    return None
+
+
+def _entry_rule(ctx, tag, ex, where, arr_ok, is_flag, kernels):
+    from .e8_karr import feasible
+    ts = ex
+    nret = nrefuse = 0
+    for t in ts.trans:
+        label = " and ".join(("" if tk else "not ") + Y.show(x) for x, tk in t["key"]) or "always"
+        cons, disj, data = Y.guard_of(dict(key=t["key"]), ts)
+        ret = t["ret"]
+        called = ret is not None and ret[0] == "opq" and ret[1] in kernels
+        if called:
+            nret += 1
+            args = [x for x in ret[2] if not (isinstance(x, tuple) and x and x[0] == "kw")]
+            ok = len(args) == 2 and arr_ok(args[0])
+            ctx.check(ok, f"{tag} [{label}]: the kernel receives the caller's sequence as an array", where, None if ok else Y.show(ret), key=f"C05-R7|{tag}|array argument")
+            if not ok:
+                continue
+            size = Y.opq_name(("opq", "size", (args[0],), "int"))
+            ndim = Y.opq_name(("opq", "ndim", (args[0],), "int"))
+            la = ts.aff(args[1]) if ts.is_int(args[1]) else None
+            from .e8_karr import V
+            ok = la is not None and not (la - V(size)).c and (la - V(size)).k == 0
+            ctx.check(ok, f"{tag} [{label}]: the length handed to the kernel is the size of that array", where, None if ok else Y.show(args[1]), key=f"C05-R7|{tag}|length argument")
+            ok = not feasible(cons + [(V(ndim) - 2, "ge")]) and not feasible(cons + [(-V(ndim), "ge")])
+            ctx.check(ok, f"{tag} [{label}]: the kernel is reached only with a 1-d array", where, key=f"C05-R7|{tag}|ndim")
+            ok = not feasible(cons + [(-V(size) + 1, "ge")])
+            ctx.check(ok, f"{tag} [{label}]: the kernel is reached only with length >= 2 (L < 2 is refused)", where, key=f"C05-R7|{tag}|length refusal")
+            fl = _flag_truth(t["key"], is_flag)
+            ok = fl is not None and kernels[ret[1]] == fl
+            ctx.check(ok, f"{tag} [{label}]: getoffsets selects the kernel with offsets, and only it ({ret[1]})", where, key=f"C05-R7|{tag}|dispatch")
+        else:
+            refused = t["dst"] == Y.RAISE or (t["dst"] == Y.END and ret == ("null",) and any(e[0] == "seterr" for e in t["events"]))
+            nrefuse += 1
+            ctx.check(refused, f"{tag} [{label}]: a call that does not reach a kernel is refused with an exception", where, None if refused else Y.show(ret) if ret else t["dst"],
+                      key=f"C05-R7|{tag}|refusal")
+    ctx.check(nret >= 2 and nrefuse >= 1, f"{tag}: {nret} dispatching and {nrefuse} refusing paths", where, nontrivial=False)
+
+
+class _ModEval:
+    """the import block of cyclecount.py evaluated under a scenario (which imports raise ImportError): flags, try / except / else, `if`, helper
+    functions.  Values: ('mod', dotted) | True | False | ('func', node) | None (unknown)"""
+
+    def __init__(self, scenario):
+        self.sc = scenario
+        self.caught = []          # handler types that caught a simulated ImportError
+
+    class Raise(Exception):
+        pass
+
+    class Return(Exception):
+        def __init__(self, v):
+            self.v = v
+
+    def ev(self, n, env):
+        if isinstance(n, ast.Constant):
+            return n.value if isinstance(n.value, bool) else None
+        if isinstance(n, ast.Name):
+            return env.get(n.id)
+        if isinstance(n, ast.UnaryOp) and isinstance(n.op, ast.Not):
+            v = self.ev(n.operand, env)
+            return (not v) if isinstance(v, bool) else None
+        if isinstance(n, ast.BoolOp):
+            vs = [self.ev(v, env) for v in n.values]
+            if isinstance(n.op, ast.And):
+                if any(v is False for v in vs):
+                    return False
+                return True if all(v is True for v in vs) else None
+            if any(v is True for v in vs):
+                return True
+            return False if all(v is False for v in vs) else None
+        if isinstance(n, ast.Call) and isinstance(n.func, ast.Name) and isinstance(env.get(n.func.id), tuple) and env[n.func.id][0] == "func":
+            fn = env[n.func.id][1]
+            local = dict(env)
+            names = [a.arg for a in fn.args.args]
+            for nm, a in zip(names, n.args):
+                local[nm] = self.ev(a, env)
+            for k in n.keywords:
+                if k.arg:
+                    local[k.arg] = self.ev(k.value, env)
+            try:
+                self.run(fn.body, local)
+            except _ModEval.Return as r:
+                return r.v
+            return None
+        return None
+
+    def _handles(self, h):
+        if h.type is None:
+            return True
+        names = [dotted(e) for e in h.type.elts] if isinstance(h.type, ast.Tuple) else [dotted(h.type)]
+        return any(n in ("ImportError", "Exception", "BaseException", "builtins.ImportError") for n in names)
+
+    def run(self, stmts, env):
+        for st in stmts:
+            if isinstance(st, ast.Import):
+                for al in st.names:
+                    if self.sc.get(al.name) is False:
+                        raise _ModEval.Raise()
+                    env[al.asname or al.name.split(".")[0]] = ("mod", al.name if al.asname else al.name.split(".")[0])
+            elif isinstance(st, ast.ImportFrom):
+                for al in st.names:
+                    full = f"{st.module}.{al.name}"
+                    if self.sc.get(st.module) is False or self.sc.get(full) is False:
+                        raise _ModEval.Raise()
+                    env[al.asname or al.name] = ("mod", full)
+            elif isinstance(st, ast.Try):
+                try:
+                    self.run(st.body, env)
+                except _ModEval.Raise:
+                    hs = [h for h in st.handlers if self._handles(h)]
+                    if not hs:
+                        self.run(st.finalbody, env)
+                        raise
+                    self.caught.append(ast.unparse(hs[0].type) if hs[0].type is not None else "<bare>")
+                    self.run(hs[0].body, env)
+                else:
+                    self.run(st.orelse, env)
+                self.run(st.finalbody, env)
+            elif isinstance(st, ast.If):
+                v = self.ev(st.test, env)
+                if v is True:
+                    self.run(st.body, env)
+                elif v is False:
+                    self.run(st.orelse, env)
+                else:
+                    for x in ast.walk(st):
+                        if isinstance(x, ast.Name) and isinstance(x.ctx, ast.Store):
+                            env[x.id] = None
+                        elif isinstance(x, (ast.Import, ast.ImportFrom)):
+                            for al in x.names:
+                                env[al.asname or al.name.split(".")[0]] = None
+            elif isinstance(st, ast.Assign):
+                v = self.ev(st.value, env)
+                for t in st.targets:
+                    if isinstance(t, ast.Name):
+                        env[t.id] = v
+                    else:
+                        for x in ast.walk(t):
+                            if isinstance(x, ast.Name) and isinstance(x.ctx, ast.Store):
+                                env[x.id] = None
+            elif isinstance(st, ast.AnnAssign) and isinstance(st.target, ast.Name):
+                env[st.target.id] = self.ev(st.value, env) if st.value is not None else None
+            elif isinstance(st, ast.FunctionDef):
+                env[st.name] = ("func", st)
+            elif isinstance(st, ast.Return):
+                raise _ModEval.Return(self.ev(st.value, env) if st.value is not None else None)
+            elif isinstance(st, (ast.Expr, ast.Pass)):
+                pass
+            else:
+                for x in ast.walk(st):
+                    if isinstance(x, ast.Name) and isinstance(x.ctx, ast.Store):
+                        env[x.id] = None
+
+
+C_MOD = "pyyeti.rainflow.c_rain"
+PY_MOD = "pyyeti.rainflow.py_rain"
+
+
+def selection(ctx):
+    """{scenario: (final environment, handler types)}; the name(s) the selected implementation is bound to"""
+    if hasattr(ctx, "_c05sel"):
+        return ctx._c05sel
+    m = ctx.src.mod(CYC)
+    res = {}
+    for c_ok in (True, False):
+        for numba_ok in (True, False):
+            me = _ModEval({C_MOD: c_ok, "numba": numba_ok})
+            env = {}
+            try:
+                me.run(m.tree.body, env)
+                res[(c_ok, numba_ok)] = (env, me.caught)
+            except _ModEval.Raise:
+                res[(c_ok, numba_ok)] = (None, me.caught)
+    names = set()
+    for (c_ok, nb), (env, caught) in res.items():
+        if env is not None and c_ok:
+            names |= {k for k, v in env.items() if v == ("mod", C_MOD)}
+    ctx._c05sel = (res, sorted(names))
+    return ctx._c05sel
+
+
+def _jit_ok(node, mod):
+    """node is numba.jit(..., nopython=True, ...) / numba.njit(...), directly or through a module-level name bound once to such a call"""
+    if isinstance(node, ast.Name):
+        defs = [s for s in ast.walk(mod.tree) if isinstance(s, ast.Assign) and any(isinstance(t, ast.Name) and t.id == node.id for t in s.targets)]
+        return len(defs) == 1 and _jit_ok(defs[0].value, mod)
+    if not isinstance(node, ast.Call):
+        return False
+    d = dotted(node.func) or ""
+    if d in ("numba.njit", "njit"):
+        return True
+    return d in ("numba.jit", "jit") and any(k.arg == "nopython" and getattr(k.value, "value", None) is True for k in node.keywords)
+
+
+def r7_selection(ctx):
+    """cyclecount binds the C implementation when it can be imported and the Python one exactly when that import raises ImportError; both entry
+    points hand (array of the caller's sequence, its length) to the kernel selected by getoffsets and refuse anything that is not a 1-d
+    sequence of length >= 2; numba only ever wraps the same functions; setup.py builds this C file"""
+    res, names = selection(ctx)
+    m = ctx.src.mod(CYC)
+    ctx.check(len(names) == 1, "cyclecount binds the compiled implementation to one module-level name", m.tree, names)
+    for (c_ok, nb), (env, caught) in sorted(res.items(), reverse=True):
+        sc = f"c_rain {'imports' if c_ok else 'raises ImportError'}, numba {'present' if nb else 'absent'}"
+        if env is None:
+            ctx.fail(f"cyclecount [{sc}]: the import of cyclecount itself fails", m.tree)
+            continue
+        want = ("mod", C_MOD if c_ok else PY_MOD)
+        got = {n: env.get(n) for n in names}
+        ok = bool(names) and all(v == want for v in got.values())
+        ctx.check(ok, f"cyclecount [{sc}]: the implementation is {want[1]}", m.tree, None if ok else {k: repr(v) for k, v in got.items()},
+                  key=f"C05-R7|selection|{c_ok}|{nb}")
+        if not c_ok:
+            ok = bool(caught) and all(c in ("ImportError", "(ImportError, ModuleNotFoundError)", "(ModuleNotFoundError, ImportError)") for c in caught)
+            ctx.check(ok, f"cyclecount [{sc}]: the fall-back is taken on ImportError and on nothing else ({caught})", m.tree, key=f"C05-R7|handler|{nb}")
+    # py_rain.rainflow entry
+    fn = ctx.src.func(PYFILE, "rainflow")
+    args = [a.arg for a in fn.args.args]
+    ctx.check(args[:1] == ["peaks"] and args[1:2] == ["getoffsets"] and len(args) == 2, "py_rain.rainflow(peaks, getoffsets)", fn, nontrivial=False)
+    pu = R.PyUnit(ctx.src.mod(PYFILE).tree)
+    ex = Y.Exec(pu, "rainflow", mode="entry", param_kinds=[None, None], label="py_rain.rainflow")
+    ex.opaque = set(KERNELS)
+    ex.run()
+    p0 = ("opq", "param", (("str", args[0]),), "any") if args else None
+    p1 = ("opq", "param", (("str", args[1]),), "any") if len(args) > 1 else None
+    _entry_rule(ctx, "py_rain.rainflow", ex, fn, lambda v: v == ("obj", "asarray", p0), lambda v: v == p1 or v == Y.opq_name(p1) if p1 else False,
+                {k: v for k, v in KERNELS.items() if k.startswith("_")})
+    # numba rebinding: only jit(nopython=True) of the same functions
+    mod = ctx.src.mod(PYFILE)
+    reb = [n for n in ast.walk(mod.tree) if isinstance(n, ast.Assign) and len(n.targets) == 1 and isinstance(n.targets[0], ast.Name)
+           and n.targets[0].id in pu.defs and n.targets[0].id != "rainflow"]
+    for r in reb:
+        v = r.value
+        ok = isinstance(v, ast.Call) and len(v.args) == 1 and not v.keywords and isinstance(v.args[0], ast.Name) and v.args[0].id == r.targets[0].id \
+            and _jit_ok(v.func, mod)
+        ctx.check(ok, f"py_rain rebinds {r.targets[0].id} only to numba.jit(nopython=True) of itself", r)
+    # C entry point
+    cu = R.CUnit(os.path.join(ctx.repo, CFILE))
+    ex = Y.Exec(cu, "rainflow", mode="entry", param_kinds=[None, None, None], label="c_rain.rainflow")
+    ex.opaque = set(KERNELS)
+    ex.run()
+    cw = f"{CFILE} (rainflow)"
+    parses = {e for t in ex.trans for e in t["events"] if e[0] == "parse"}
+    ok = len(parses) == 1 and next(iter(parses))[1] == "O|p" and next(iter(parses))[3] == 2
+    ctx.check(ok, "c_rain.rainflow parses (peaks, getoffsets=False) with format \"O|p\"", cw, None if ok else repr(sorted(parses)))
+    ok = len(parses) == 1 and next(iter(parses))[2] == ("peaks", "getoffsets")
+    ctx.check(ok, "c_rain.rainflow keyword names are peaks, getoffsets", cw, None if ok else repr(sorted(parses)), nontrivial=False)
+    a0 = ("opq", "arg", (("num", Fraction(0)),), "any")
+
+    def c_flag(v):
+        s = v if isinstance(v, str) else Y.opq_name(v) if isinstance(v, tuple) and v and v[0] == "opq" else ""
+        return s.startswith("<arg(1")
+    _entry_rule(ctx, "c_rain.rainflow", ex, cw, lambda v: v == ("obj", "asarray", a0), c_flag, {k: v for k, v in KERNELS.items() if not k.startswith("_")})
+    # setup.py builds exactly this file
+    sp = os.path.join(ctx.repo, "setup.py")
+    if os.path.exists(sp):
+        txt = open(sp).read()
+        ok = "pyyeti/rainflow/c_rain.c" in txt and "pyyeti.rainflow.c_rain" in txt
+        ctx.check(ok, "setup.py builds pyyeti.rainflow.c_rain from pyyeti/rainflow/c_rain.c", "setup.py:1")
+    else:
+        ctx.error("setup.py not found", None)
 
 
 def r9_wrapper_transparency(ctx):
     """cyclecount.rainflow is the public entry point of the counter.  Whatever implementation was bound at import time and whatever module flags
-    exist, on EVERY path it must hand the caller's sequence itself to `rain.rainflow` (no filtering, re-sampling or re-ordering of the reversals:
-    the C and the Python implementation are only equivalent to ASTM E1049 on the sequence they are given) and return that call's table
-    (optionally wrapped in DataFrames).  Decided per syntactic path; unknown flags are explored both ways."""
-    from .sem import enumerate_paths
+    exist, on EVERY path it must hand the caller's sequence itself to the bound implementation's `rainflow` (no filtering, re-sampling or
+    re-ordering of the reversals: the C and the Python implementation are only equivalent to ASTM E1049 on the sequence they are given) and
+    return that call's table (optionally wrapped in DataFrames).  Decided per syntactic path; unknown flags are explored both ways."""
+    from .sem import enumerate_paths, module_funcs, module_consts
     fn = ctx.src.func(CYC, "rainflow")
     params = [a.arg for a in fn.args.args]
     if not params or params[0] != "peaks":
         raise AnchorError("cyclecount.rainflow(peaks, ...)")
+    _, names = selection(ctx)
+    if not names:
+        raise AnchorError("cyclecount: no module-level name is bound to the compiled rainflow implementation")
+    impl_calls = tuple(f"{n}.rainflow" for n in names)
     P = F.sym("peaks")
     G = F.sym("getoffsets")
 
     def call(node, ev):
         d = dotted(node.func) or ""
-        if d == "rain.rainflow":
+        if d in impl_calls:
             return (F.sym("rf_table"), F.sym("os_table"))      # unpacked or not, the path tests below look at the arguments
         if d in ("np.asarray", "np.atleast_1d", "np.ascontiguousarray", "np.array", "np.ravel") and node.args:
             return ev.ev(node.args[0])
-        if d == "pd.DataFrame" and node.args:
-            return ev.ev(node.args[0])
+        if d in ("pd.DataFrame", "pandas.DataFrame"):
+            if node.args:
+                return ev.ev(node.args[0])
+            for k in node.keywords:
+                if k.arg == "data":
+                    return ev.ev(k.value)
         return NotImplemented
 
+    # small loop-free helpers of the module (DataFrame wrappers, argument checks) are followed; the signal-processing functions are not
+    inline = {k: v for k, v in module_funcs(ctx, CYC).items() if v is not fn and len(v.body) <= 8
+              and not any(isinstance(x, (ast.For, ast.While, ast.Try, ast.With)) for x in ast.walk(v))}
     npaths = 0
-    for decisions, S in enumerate_paths(ctx, fn, call=call):
+    for decisions, S in enumerate_paths(ctx, fn, call=call, inline=inline, consts=module_consts(ctx, CYC)):
         if not S.ev.returns:
             continue
         npaths += 1
-        calls = S.calls("rain.rainflow")
+        calls = S.calls(*impl_calls)
         how = ", ".join(f"{utext(t)}={v}" for t, v in decisions)
         ok = len(calls) == 1
         ctx.check(ok, "cyclecount.rainflow: exactly one call of the bound implementation on every path", S.ret_node(), None if ok else {"path": how, "calls": len(calls)},
@@ -224,8 +611,12 @@ def r9_wrapper_transparency(ctx):
                   None if ok else {"path": how, "argument": repr(a0), "consequence": "the cycle table is that of another sequence (e.g. pre-filtered reversals)"},
                   key="C05-R9|rainflow|peaks argument")
         a1 = args[1] if len(args) > 1 else kws.get("getoffsets")
-        gdec = [v for t, v in decisions if utext(t) == "getoffsets"]
-        ok = a1 is not None and not is_unknown(a1) and not isinstance(a1, tuple) and (need(a1).equals(G) or (gdec and need(a1).equals(F.const(1 if gdec[0] else 0))))
+        gdec = [v for t, v in decisions if utext(t) in ("getoffsets", "notgetoffsets")]
+        gval = None
+        for t, v in decisions:
+            if utext(t) == "getoffsets":
+                gval = v
+        ok = a1 is not None and not is_unknown(a1) and not isinstance(a1, tuple) and (need(a1).equals(G) or (gval is not None and need(a1).equals(F.const(1 if gval else 0))))
         ctx.check(ok, "cyclecount.rainflow: offsets are requested from the implementation exactly when the caller asks for them", calls[0][3],
                   None if ok else {"path": how, "argument": repr(a1)}, key="C05-R9|rainflow|getoffsets argument")
         ret = S.ret()
@@ -239,393 +630,40 @@ def r9_wrapper_transparency(ctx):
     ctx.check(npaths >= 4, "cyclecount.rainflow: at least the four getoffsets x use_pandas paths were evaluated", fn, npaths, nontrivial=False)
 
 
-def r7_selection(ctx):
-    # cyclecount import block: c_rain first, py_rain only on ImportError
-    m = ctx.src.mod(CYC)
-    trys = [n for n in m.tree.body if isinstance(n, ast.Try)]
-    found = False
-    for t in trys:
-        imps = [ast.unparse(s) for s in t.body]
-        if any("c_rain" in s for s in imps):
-            found = True
-            ok = len(t.handlers) == 1 and ast.unparse(t.handlers[0].type) == "ImportError" and \
-                any("py_rain" in ast.unparse(s) for s in t.handlers[0].body)
-            ctx.check(ok, "cyclecount binds `rain` to c_rain and falls back to py_rain only on ImportError", t)
-            names = set()
-            for s in t.body + t.handlers[0].body:
-                if isinstance(s, ast.Import):
-                    names |= {a.asname or a.name for a in s.names}
-                elif isinstance(s, ast.ImportFrom):
-                    names |= {a.asname or a.name for a in s.names}
-            ctx.check(len(names) == 1, "both implementations are bound to the same name", t, sorted(names))
-    if not found:
-        raise AnchorError("cyclecount: c_rain import block not found")
-    # py_rain.rainflow entry
-    fn = ctx.src.func(PYFILE, "rainflow")
-    txt = utext(fn)
-    ok = "L=peaks.sizeifpeaks.ndim==1else0" in txt and "ifL<2:" in txt and "raiseValueError" in txt
-    ctx.check(ok, "py_rain.rainflow: L = size of a 1-d vector else 0; L < 2 is refused", fn)
-    from .paths import flag_paths
-    for flag, want in ((True, "_rainflow2"), (False, "_rainflow1")):
-        rets = set()
-        for trace, end in flag_paths(fn.body, lambda t, flag=flag: {"getoffsets": flag, "L<2": False}.get(utext(t)),
-                                     relevant=lambda st: False):
-            if isinstance(end, ast.Return) and end.value is not None:
-                rets.add(utext(end.value))
-            elif end is None:
-                rets.add("<falls off the end>")
-        ok = rets == {f"{want}(peaks,L)"}
-        ctx.check(ok, f"py_rain.rainflow(getoffsets={flag}) returns {want}(peaks, L) on every path", fn, sorted(rets))
-    args = [a.arg for a in fn.args.args]
-    ctx.check(args == ["peaks", "getoffsets"], "py_rain.rainflow(peaks, getoffsets)", fn, nontrivial=False)
-    # numba rebinding: only jit(nopython=True) of the same functions
-    mod = ctx.src.mod(PYFILE)
-    reb = [n for n in ast.walk(mod.tree) if isinstance(n, ast.Assign) and isinstance(n.targets[0], ast.Name)
-           and n.targets[0].id in ("_rainflow1", "_rainflow2")]
-    for r in reb:
-        v = r.value
-        ok = isinstance(v, ast.Call) and len(v.args) == 1 and isinstance(v.args[0], ast.Name) and v.args[0].id == r.targets[0].id \
-            and isinstance(v.func, ast.Call) and dotted(v.func.func) == "numba.jit" \
-            and any(k.arg == "nopython" and getattr(k.value, "value", None) is True for k in v.func.keywords)
-        ctx.check(ok, f"py_rain rebinds {r.targets[0].id} only to numba.jit(nopython=True) of itself", r)
-    # C entry point
-    fdecl = R.clang_function(os.path.join(ctx.repo, CFILE), "rainflow")
-    js = _collect(fdecl)
-    ok = any(n.get("kind") == "StringLiteral" and "O|p" in n.get("value", "") for n in js)
-    ctx.check(ok, "c_rain.rainflow parses (peaks, getoffsets=False) with format \"O|p\"", _cwhere())
-    kws = [n.get("value", "").strip('"') for n in js if n.get("kind") == "StringLiteral"]
-    ctx.check("peaks" in kws and "getoffsets" in kws, "c_rain.rainflow keyword names are peaks, getoffsets", _cwhere(), nontrivial=False)
-    # L < 2 refusal
-    ifs = [n for n in js if n.get("kind") == "IfStmt"]
-    ok = False
-    for n in ifs:
-        c = _strip(n["inner"][0])
-        if c.get("kind") == "BinaryOperator" and c.get("opcode") == "<":
-            l, r = _strip(c["inner"][0]), _strip(c["inner"][1])
-            if (l.get("referencedDecl") or {}).get("name") == "L" and r.get("value") == "2":
-                ok = any(x.get("kind") == "ReturnStmt" for x in _collect(n["inner"][1]))
-    ctx.check(ok, "c_rain.rainflow refuses L < 2 (same bound as py_rain)", _cwhere())
-    # setup.py builds exactly this file
-    sp = os.path.join(ctx.repo, "setup.py")
-    if os.path.exists(sp):
-        txt = open(sp).read()
-        ok = "pyyeti/rainflow/c_rain.c" in txt and "pyyeti.rainflow.c_rain" in txt
-        ctx.check(ok, "setup.py builds pyyeti.rainflow.c_rain from pyyeti/rainflow/c_rain.c", "setup.py:1")
-    else:
-        ctx.error("setup.py not found", None)
-
-
-def _strip(n):
-    while n.get("kind") in ("ImplicitCastExpr", "ParenExpr", "CStyleCastExpr", "ConstantExpr"):
-        n = n["inner"][0]
-    return n
-
-
-def _collect(n, acc=None):
-    acc = [] if acc is None else acc
-    if isinstance(n, dict):
-        acc.append(n)
-        for c in n.get("inner", []) or []:
-            _collect(c, acc)
-    return acc
-
-
-def r8_buffers(ctx):
-    """allocation sizes, returned slice, calloc/free pairing (C), np.empty sizes (Python)"""
-    S = _load(ctx)
-    for nm in ("_rainflow1", "_rainflow2"):
-        d = S.py[nm]
-        # sizes and the returned prefix are decided semantically by C05-R4; here only the element types of the offset buffers
-        if nm.endswith("2"):
-            for arr in ("cycle_index", "os"):
-                call = d["allocs"].get(arr)
-                dt = None
-                if call is not None:
-                    dt = utext(call.args[1]) if len(call.args) > 1 else next((utext(k.value) for k in call.keywords if k.arg == "dtype"), None)
-                ctx.check(dt in ("np.int64", "np.intp", "int"), f"py {nm}: {arr} holds integers ({dt})", d["fn"])
-    for nm in ("rainflow1", "rainflow2"):
-        d = S.c[nm]
-        js = _collect(d["fdecl"])
-        calls = {}
-        for n in js:
-            if n.get("kind") == "CallExpr":
-                cal = _strip(n["inner"][0])
-                nmc = (cal.get("referencedDecl") or {}).get("name")
-                calls.setdefault(nmc, []).append(n)
-        ncalloc = len(calls.get("calloc", []))
-        nfree = len(calls.get("free", []))
-        want = 1 if nm == "rainflow1" else 2
-        ok = ncalloc == want and nfree == 2 * want
-        ctx.check(ok, f"C {nm}: every calloc ({ncalloc}) is freed on both the normal and the fail exit ({nfree} frees)", _cwhere())
-        # the cursor arrays are only ever advanced by the emissions (no other write through rf/os)
-        pushes = sum(1 for s in R.walk_ir(d["region"]) if s[0] == "emit" and s[1] == "rf")
-        ctx.check(pushes == 3, f"C {nm}: three emission sites write through the rf cursor", _cwhere(), nontrivial=False)
-        for s in R.walk_ir(d["region"]):
-            if s[0] == "emit":
-                wantn = 3 if s[1] == "rf" else 2
-                ctx.check(len(s[2]) == wantn, f"C {nm}: each emission advances the {s[1]} cursor by exactly one row ({wantn} stores)", _cwhere())
-
-
-# ---------------------------------------------------------------------------
-# R4: counter balance and buffer bounds by abstract interpretation (affine equalities + template inequalities)
-def _py_aff(n):
-    from .e8_karr import Aff, V
-    if isinstance(n, ast.Constant) and isinstance(n.value, int):
-        return Aff({}, n.value)
-    if isinstance(n, ast.Name):
-        return V(n.id)
-    if isinstance(n, ast.BinOp) and isinstance(n.op, (ast.Add, ast.Sub)):
-        a, b = _py_aff(n.left), _py_aff(n.right)
-        if a is None or b is None:
-            return None
-        return a + b if isinstance(n.op, ast.Add) else a - b
-    return None
-
-
-def _py_capacities(d):
-    """array name -> number of rows/entries it was allocated with (from the np.empty/np.zeros call)"""
-    caps = {}
-    for nm, call in d["allocs"].items():
-        shape = call.args[0] if call.args else None
-        if isinstance(shape, ast.Tuple):
-            shape = shape.elts[0]
-        a = _py_aff(shape) if shape is not None else None
-        if a is None:
-            raise Unsupported(f"allocation size of {nm} is not affine: {ast.unparse(call)}")
-        caps[nm] = a
-    return caps
-
-
-def _py_slices(d):
-    """[(array, stop Aff)] of the returned prefix slices; a stop given through a local (`ncycles = L - fullcyclesp1` after the loops) is resolved"""
-    fn = d["fn"]
-    loops = [i for i, st in enumerate(fn.body) if isinstance(st, (ast.For, ast.While))]
-    after = {}
-    for i, st in enumerate(fn.body):
-        if isinstance(st, ast.Assign) and len(st.targets) == 1 and isinstance(st.targets[0], ast.Name):
-            if loops and i > loops[-1]:
-                a_ = _py_aff(st.value)
-                if a_ is not None:
-                    for k, v in after.items():
-                        if k in a_.c:
-                            a_ = a_.subs(k, v)
-                    after[st.targets[0].id] = a_
-
-    def stop_aff(node):
-        a_ = _py_aff(node)
-        if a_ is None:
-            return None
-        for k, v in after.items():
-            if k in a_.c:
-                a_ = a_.subs(k, v)
-        return a_
-
-    out = []
-    for r in d["rets"]:
-        vals = r.value.elts if isinstance(r.value, ast.Tuple) else [r.value]
-        for v in vals:
-            if isinstance(v, ast.Subscript) and isinstance(v.value, ast.Name) and isinstance(v.slice, ast.Slice) \
-                    and v.slice.lower is None and v.slice.step is None and v.slice.upper is not None:
-                sa = stop_aff(v.slice.upper)
-                if sa is None:
-                    raise Unsupported(f"returned slice stop {ast.unparse(v.slice.upper)} is not affine")
-                out.append((v.value.id, sa))
-            elif isinstance(v, ast.Name):
-                out.append((v.id, None))     # whole array
-            else:
-                raise Unsupported(f"return value {ast.unparse(v)}")
-    return out
-
-
-def _c_capacities(d, low):
-    """C: work buffers from `x = calloc(n, ...)`; output rows from `dims[2] = {rows, 3}` evaluated before the count loop"""
-    from .e8_karr import aff_of_ir
-    caps = {}
-    body = low.body()["inner"]
-
-    def find(n, pred, acc):
-        if isinstance(n, dict):
-            if pred(n):
-                acc.append(n)
-            for c in n.get("inner", []) or []:
-                find(c, pred, acc)
-        return acc
-    for asg in find(d["fdecl"], lambda n: n.get("kind") == "BinaryOperator" and n.get("opcode") == "=", []):
-        rhs = _strip(asg["inner"][1])
-        if rhs.get("kind") == "CallExpr" and (_strip(rhs["inner"][0]).get("referencedDecl") or {}).get("name") == "calloc":
-            lhs = _strip(asg["inner"][0])
-            a = aff_of_ir(low.expr(rhs["inner"][1], []))
-            if a is None:
-                raise Unsupported("calloc size is not affine")
-            caps[(lhs.get("referencedDecl") or {}).get("name")] = a
-    # dims
-    top_for = [i for i, s in enumerate(body) if s.get("kind") == "ForStmt"]
-    dims_at = [i for i, s in enumerate(body) if find(s, lambda n: n.get("kind") == "VarDecl" and n.get("name") == "dims", [])]
-    if len(dims_at) != 1 or not top_for:
-        raise Unsupported("C: `dims` declaration not found at the top level of the function")
-    il = find(body[dims_at[0]], lambda n: n.get("kind") == "InitListExpr", [])
-    if not il:
-        raise Unsupported("C: `dims` has no initialiser list")
-    rows = aff_of_ir(low.expr(il[0]["inner"][0], []))
-    if rows is None:
-        raise Unsupported("C: dims[0] is not affine")
-    if dims_at[0] > top_for[0]:
-        raise Unsupported("C: the output array is sized after a top-level loop (the two-pass build is not modelled)")
-    # stores into dims[0] after the declaration would change the row count
-    for asg in find(d["fdecl"], lambda n: n.get("kind") == "BinaryOperator" and n.get("opcode") == "=", []):
-        lhs = _strip(asg["inner"][0])
-        if lhs.get("kind") == "ArraySubscriptExpr" and (_strip(lhs["inner"][0]).get("referencedDecl") or {}).get("name") == "dims":
-            ix = _strip(lhs["inner"][1])
-            if ix.get("value") != "1":
-                raise Unsupported("C: dims[0] is reassigned")
-    # evaluated with the scalar initial values (fullcyclesp1 == 1 at that point)
-    for v, val in d["inits"].items():
-        if v in rows.c:
-            rows = rows.subs(v, val)
-    caps["rf"] = rows
-    caps["os"] = rows
-    # returned slice
-    slices = []
-    stops = find(d["fdecl"], lambda n: n.get("kind") == "CallExpr" and
-                 (_strip(n["inner"][0]).get("referencedDecl") or {}).get("name") == "PyLong_FromSsize_t", [])
-    guards = find(d["fdecl"], lambda n: n.get("kind") == "IfStmt" and find(n, lambda m: m in stops, []), []) if stops else []
-    stop = aff_of_ir(low.expr(stops[0]["inner"][1], [])) if stops else None
-    guard = low.expr(guards[0]["inner"][0], []) if guards else None
-    return caps, stop, guard
-
-
-def r4_counter_balance(ctx):
-    """for every input of length L >= 2: every pts/cycle_index/peaks access is within [0, L-1], every row written is below the capacity of
-    the output arrays, rows == L - fullcyclesp1 on exit (the returned prefix is exactly the rows written), fullcyclesp1 - 1 == number of
-    count-1 rows, and the counts sum to (L-1)/2.  Abstract interpretation (affine equalities + template inequalities) of the counter
-    program extracted from the path effects of each implementation."""
-    from .e8_karr import Aff, CounterAnalysis, State, V, aff_of_ir
-    S = _load(ctx)
-    impl = SEM.implementations(ctx, S)
-    L = V("L")
-    for (side, nm), a in impl.items():
-        d = S.c[nm] if side == "C" else S.py[nm]
-        where = a["where"]
-        tag = f"{side} {nm}"
-        if side == "C":
-            caps, stop, guard = _c_capacities(d, d["low"])
-            slices = None
-        else:
-            caps = _py_capacities(d)
-            slices = _py_slices(d)
-        arrays = {k: v for k, v in caps.items() if k not in ("rf", "os")}
-        arrays["peaks"] = L          # C05-R7 checks that both entry points pass L = the length of the 1-D peaks array
-        need = {"pts", "rf"} | ({"cycle_index", "os"} if a["offsets"] else set())
-        if not need <= set(caps):
-            ctx.error(f"{tag}: no allocation found for {sorted(need - set(caps))}", where)
-            continue
-        outs = [caps[k] for k in ("rf", "os") if k in need]
-        try:
-            prog = SEM.counter_program(a)
-        except Unsupported as e:
-            ctx.error(f"{tag}: counter program: {e}", where)
-            continue
-        ints = a["res"]["ints"]
-        ixvars = sorted(v for v in ints if v != "L")
-        results = []
-        for cap in {repr(c): c for c in outs}.values():
-            an = CounterAnalysis(arrays, ixvars, cap)
-            st0 = State()
-            for v, val in a["inits"].items():
-                if v in ints and v != a["rowvar"] and val.denominator == 1:
-                    st0.assign(v, Aff({}, val))
-            st0.assign("rows", Aff({}, 0))
-            st0.assign("fullrows", Aff({}, 0))
-            st0.lb["L"] = 2                 # both entry points refuse L < 2 (C05-R7)
-            try:
-                ex, brk = an.block(prog, st0)
-            except Unsupported as e:
-                ctx.error(f"{tag}: abstract interpretation gave up: {e}", where)
-                an = None
-                break
-            results.append((an, ex))
-        if not results or an is None:
-            continue
-        seen = set()
-        for an, ex in results:
-            for desc, ok, strepr in an.obl:
-                if (desc, ok) in seen:
-                    continue
-                seen.add((desc, ok))
-                ctx.check(ok, f"{tag}: {desc}", where, None if ok else f"not derivable from the loop invariant {strepr}")
-        an, ex = results[0]
-        fcs = [v for v in a["state"] if v in ints and v not in ("L",) and a["inits"].get(v) == 1]
-        if len(fcs) != 1:
-            ctx.error(f"{tag}: the full-cycle counter (integer state variable initialised to 1) was not identified", where, sorted(fcs))
-            continue
-        fc = V(fcs[0])
-        rows, full = V("rows"), V("fullrows")
-        ok = ex.entails_eq(rows - (L - fc))
-        ctx.check(ok, f"{tag}: on exit the number of rows written is exactly L - {fcs[0]}", where, None if ok else repr(ex))
-        ok = ex.entails_eq(full - (fc - 1))
-        ctx.check(ok, f"{tag}: {fcs[0]} - 1 is exactly the number of count-1 rows", where, None if ok else repr(ex))
-        ok = ex.entails_eq(full + rows - (L - 1))
-        ctx.check(ok, f"{tag}: 2 * sum(counts) = 2*full + half = L - 1 (every interval between successive points is counted once)", where,
-                  None if ok else repr(ex))
-        if side == "py":
-            want = {"rf"} | ({"os"} if a["offsets"] else set())
-            got = {x for x, _ in slices}
-            ctx.check(got == want, f"{tag}: returns {sorted(want)}", where, sorted(got))
-            for arr, stp in slices:
-                if stp is None:
-                    ok = ex.entails_eq(rows - caps[arr])
-                    ctx.check(ok, f"{tag}: {arr} is returned whole and is full (rows == capacity)", where, None if ok else repr(ex))
-                else:
-                    ok = ex.entails_eq(rows - stp)
-                    ctx.check(ok, f"{tag}: the returned slice {arr}[:{stp}] is exactly the rows written", where, None if ok else repr(ex))
-        else:
-            if stop is None:
-                ok = ex.entails_eq(rows - caps["rf"])
-                ctx.check(ok, f"{tag}: the output is returned whole and is full", where, None if ok else repr(ex))
-            else:
-                t, f = (ex.copy(), State(bottom=True))
-                if guard is not None and guard[0] == "cmp":
-                    ga, gb = aff_of_ir(guard[2]), aff_of_ir(guard[3])
-                    if ga is not None and gb is not None:
-                        t, f = an.guard(("cmpaff", guard[1], ga - gb), ex)
-                        neg = {">": gb - ga, ">=": gb - ga - 1, "<": ga - gb, "<=": ga - gb - 1}.get(guard[1])
-                        if neg is not None:
-                            f.assume_nonneg(neg)
-                ok = t.bottom or t.entails_eq(rows - stop)
-                ctx.check(ok, f"{tag}: when {R.fmt_expr(guard) if guard else 'always'}, the returned slice [:{stop}] is exactly the rows written", where,
-                          None if ok else repr(t))
-                ok = f.bottom or f.entails_eq(rows - caps["rf"])
-                ctx.check(ok, f"{tag}: otherwise the whole output is returned and it is full (rows == {caps['rf']})", where, None if ok else repr(f))
-
-
 RULES = [
     ("C05-R1", r1_equivalence, 8),
-    ("C05-R2", r2_erasure, 2),
-    ("C05-R3", r3_astm, 4),
+    ("C05-R2", r2_erasure, 8),
+    ("C05-R3", r3_astm, 16),
     ("C05-R4", r4_counter_balance, 150),
     ("C05-R5", r5_lockstep, 12),
     ("C05-R6", r6_value_flow, 40),
-    ("C05-R7", r7_selection, 10),
-    ("C05-R8", r8_buffers, 10),
+    ("C05-R7", r7_selection, 20),
+    ("C05-R8", r8_buffers, 20),
     ("C05-R9", r9_wrapper_transparency, 16),
 ]
 LEVEL = "translation_validation"
 TRUSTED = ["clang-14 front end (parser/preprocessor of c_rain.c, -ast-dump=json)", "CPython ast", "verifier/e7_rainir.py lowering",
-           "IEEE-754 evaluation of identical expression trees by the C compiler and CPython/numba"]
+           "verifier/e7_sym.py symbolic execution (models of calloc/free, the numpy/CPython allocation, slicing and reference-count calls)",
+           "IEEE-754 evaluation of identical expression trees by the C compiler and CPython/numba (x / 2^k and 2^-k * x, |a - b| and |b - a| identified)"]
 EXPLANATION = ("Static translation validation between the two rainflow implementations: both are lowered (clang JSON AST / Python ast) to one "
-               "small IR and compared structurally; each is compared with a transcription of ASTM E1049-85 5.4.4; offsets are in lock-step with "
-               "values; data reaches control flow only through |p-q| < |r-s|; an abstract interpretation (affine equalities + template inequalities, "
-               "verifier/e8_karr.py) proves every buffer index in range, every emitted row below capacity, rows == L - fullcyclesp1 == the returned "
-               "prefix and 2*sum(counts) == L-1; calloc/free pairing.")
+               "structured IR (one loop form, explicit side effects, helpers inlined) and executed symbolically into a transition system between loop "
+               "heads; the systems are compared semantically - by the effect of every path between two loop heads on the reversal stack, the emitted rows "
+               "and the counters - up to a change of variables derived from each program (re-based / re-scaled counters, merged equal counters, cached "
+               "array elements); each is compared the same way with a transcription of ASTM E1049-85 5.4.4; offsets are in lock-step with values; data "
+               "reaches control flow only through |p-q| < |r-s|; an abstract interpretation (affine equalities + template inequalities, "
+               "verifier/e8_karr.py, invariants inferred per program) proves every buffer index in range, output rows written consecutively and below "
+               "capacity, the returned prefix == the rows written (in the program's own exit expression) and 2*sum(counts) == L-1; calloc/free pairing.")
 MANIFEST = {
-    "text": "Decided statically for all inputs of length >= 2: the C and Python counting loops are the same transition system with identical expression "
-            "trees (IR isomorphism), rainflow1 is rainflow2 with offsets erased, both equal the ASTM E1049-85 three-point stack automaton, every value move "
-            "is mirrored by its index move and every emitted offset pair names the two points whose range is counted, data influences control only through "
-            "|p-q| < |r-s| (hence negation/shift/positive scaling act 'in the obvious way'), both entry points refuse L < 2 and dispatch identically, "
-            "and (C05-R4, abstract interpretation of the shared IR with Karr's affine-equality domain plus template inequalities) for every L >= 2 every "
-            "pts/cycle_index/peaks index lies in [0, L-1], every emitted row is below the allocated capacity, on exit rows == L - fullcyclesp1 which is "
-            "exactly the returned prefix, fullcyclesp1 - 1 is the number of count-1 rows and the counts sum to (L-1)/2; (C05-R9) on every syntactic path the public "
+    "text": "Decided statically for all inputs of length >= 2: the C and Python counting loops are the same transition system (same decisions, same effect "
+            "of every path between loop heads on the stack, the output rows and the counters, identical floating-point expression trees up to x/2 == 0.5*x "
+            "and commutativity; counters up to an affine change of variables derived from each program), rainflow1 is rainflow2 with offsets erased, both "
+            "equal the ASTM E1049-85 three-point stack automaton, every value move is mirrored by its index move and every emitted offset pair names the two "
+            "points whose range is counted, data influences control only through |p-q| < |r-s| (hence negation/shift/positive scaling act 'in the obvious "
+            "way'), both entry points refuse anything but a 1-d sequence of length >= 2 and dispatch identically, and (C05-R4, abstract interpretation with "
+            "Karr's affine-equality domain plus template inequalities) for every L >= 2 every stack / input index lies within the allocated length, the "
+            "output rows are written whole, consecutively from row 0 and below the allocated capacity, on exit the returned prefix is exactly the rows "
+            "written, both tables have the same number of rows and the counts sum to (L-1)/2; (C05-R9) on every syntactic path the public "
             "wrapper cyclecount.rainflow hands the caller's sequence itself to the bound implementation and returns its tables unchanged. Not decided: numba's compilation, bit-level FP of the two compilers.",
-    "note": "Trusted: clang-14 as parser of c_rain.c with the build's include paths; CPython ast; IEEE conformance of both compilers on identical expression trees.",
-    "technique": "static translation validation: clang JSON AST and Python AST lowered to a common IR, structural isomorphism + comparison with an ASTM E1049 reference automaton; abstract interpretation (Karr affine equalities + template inequalities) for counter balance and buffer bounds",
+    "note": "Trusted: clang-14 as parser of c_rain.c with the build's include paths; CPython ast; IEEE conformance of both compilers on identical expression trees; allocation calls succeed (the failure exits are checked only for releasing the buffers).",
+    "technique": "static translation validation: clang JSON AST and Python AST lowered to a common IR, symbolic execution into transition systems between loop heads, semantic comparison up to a derived change of variables + comparison with an ASTM E1049 reference automaton; abstract interpretation (Karr affine equalities + template inequalities) for counter balance and buffer bounds",
 }
